@@ -24,8 +24,7 @@
    Deliberate oddities of the code that are modelled as they are: Pipeline on a pod already on the
    node without updateIfExists is Unevict; unevict does not restore NodeName; allocateOperation keeps
    a clone of the task (commit / convert continue on the clone: virtual flag of the clone); a failed
-   Bind un-allocates and clears the log (whether the remaining operations are undone first or abandoned is the
-   constant BindFailUndoesRest, set from the source under check); callers of
+   Bind un-allocates the task, undoes the operations after it (newest first) and clears the log; callers of
    Allocate/Pipeline assign the pod's GPU groups before the call
    (gpu_sharing.AllocateFractionalGPUTaskToNode).
 
@@ -52,9 +51,7 @@ EXTENDS Integers, Sequences, FiniteSets, FiniteSetsExt, TLC, Json
 CONSTANTS Cfg,       \* scenario used for model checking: [nodes, queues, jobs, pods, groups]
           MaxOps,    \* forward operations are enabled while Len(ops) < MaxOps
           MaxFail,   \* injected Cache failures per behaviour
-          MaxStmts,  \* statements per behaviour
-          BindFailUndoesRest   \* TRUE: Commit undoes the entries after a failed Bind (newest first) before it clears the
-                               \* log; FALSE (the code as first found): they are abandoned, their virtual effect stays
+          MaxStmts   \* statements per behaviour
 
 VARIABLES cfg,       \* scenario
           pod,       \* pod -> [st, node, groups, virt, acc] (the PodInfo held by the workload; acc = GPU quota of its
@@ -427,7 +424,9 @@ CommitOne(S, i, ok) ==
                                          !.pod[p] = [st |-> "Binding", node |-> op.nn, groups |-> op.pg, virt |-> op.pv, acc |-> @.acc]],
                         stop |-> FALSE]
             ELSE LET S1 == UnallocateFn([S EXCEPT !.pod[p] = [st |-> @.st, node |-> op.nn, groups |-> op.pg, virt |-> op.pv, acc |-> @.acc]], p, FALSE)
-                     S2 == IF BindFailUndoesRest THEN UndoRestDown(S1, Len(S1.ops), i + 1) ELSE S1
+                     \* the commit stops here: the entries after the failed one are undone, newest first (6091c57; the code
+                     \* as first found abandoned them and left their virtual effect in the session)
+                     S2 == UndoRestDown(S1, Len(S1.ops), i + 1)
                  IN [S |-> [S2 EXCEPT !.ops = <<>>], stop |-> TRUE]
        [] OTHER -> [S |-> S, stop |-> FALSE]
 
